@@ -455,7 +455,7 @@ impl Property for C05 {
                         GasA::All => gasbal[u],
                         GasA::AllPlus1 => gasbal[u] + 1,
                     };
-                    let data_b: Option<Vec<u8>> = data.map(|l| seeded_bytes(step as u64, l as usize));
+                    let data_b: Option<Vec<u8>> = data.map(|l| shaped_bytes(step as u64 + l as u64, l as usize));
                     let dest_b = seeded_bytes(77 + step as u64, 20);
                     // a stated gas payment of exactly 0 charges "exactly the stated payment" if it goes through:
                     // the statement does not decide whether such a transfer is accepted (today the gas service
@@ -570,7 +570,7 @@ impl Property for C05 {
                         Amt::Bal | Amt::Custody => custody.max(1),
                         Amt::BalPlus1 | Amt::CustodyPlus1 => custody + 1,
                     };
-                    let data_b: Vec<u8> = data.map(|l| seeded_bytes(step as u64, 1 + l as usize)).unwrap_or_default();
+                    let data_b: Vec<u8> = data.map(|l| shaped_bytes(step as u64 + l as u64, 1 + l as usize)).unwrap_or_default();
                     let src_b = seeded_bytes(5 + step as u64, 20);
                     let inner = AMsg::Transfer { token_id: tid, source: src_b.clone(), dest: address_xdr(env, &pool[to_i]), amount: word_u128(a as u128), data: data_b.clone() };
                     let payload = ItsWorld::receive_payload(CHAINS[o], &inner);
